@@ -12,14 +12,15 @@ from ..world import OID, World, to_ref
 
 ID = "C13"
 LEVEL = "fault_enumeration"
-OUTCOMES = "RNLDIF"  # reply in time, no reply, late reply, two replies, ICMP/OS error, fatal socket error
+OUTCOMES = "RNLDIFB"  # reply in time, no reply, late reply, two replies, ICMP/OS error, fatal socket error, send blocked (EAGAIN)
 SEQS: List[Tuple[int, str]] = [(r, "".join(s)) for r in (1, 2, 3, 4) for s in itertools.product(OUTCOMES, repeat=r)]
 TIMEOUTS = [1, 2, 6, 0.5]
 RULE = ("All %d sequences of per-attempt outcomes from {reply in time, no reply, reply after the timeout, two replies, "
-        "ICMP/OS error (port unreachable = ConnectionRefusedError, host/net unreachable and message-too-long = plain OSError), "
+        "send queue full (EAGAIN: the transport buffers the datagram beyond the attempt's timeout), ICMP/OS error (port unreachable = ConnectionRefusedError, host/net unreachable and message-too-long = plain OSError), "
         "fatal socket error} of length = retries for retries in 1..4 are enumerated; quick runs each with every timeout in "
         "{1, 2, 6, 0.5} s (latencies and entry point seeded), thorough runs each with every timeout in {1, 2, 6, 0.5} s and 8 latency seeds, "
-        "half through send_udp directly and half through Client.get. A scripted peer on the simulated network produces "
+        "half through send_udp directly and half through Client.get; in half of the runs the wall clock (time.time) jumps "
+        "forwards/backwards by 30 s .. 1 day at some of its readings. A scripted peer on the simulated network produces "
         "the outcome of attempt k. Oracle on the simulated transport under virtual time: sendto count <= retries, identical "
         "payloads, attempt k+1 exactly `timeout` virtual seconds after an unanswered attempt k, the first reply's bytes are "
         "returned at the instant they are delivered, Timeout after exactly retries x timeout, replies never cross sockets, "
@@ -31,7 +32,7 @@ ASSUMPTIONS = [
     "real loopback sockets (/proc/self/fd) are outside deterministic simulation; they are used only by `selftest fidelity`",
 ]
 PROBES = ["timeout_raised", "late_reply_dropped", "duplicate_reply", "icmp_error", "fatal_error", "reply_on_last_attempt",
-          "via_client_get", "error_then_retry_or_raise"]
+          "via_client_get", "error_then_retry_or_raise", "wall_clock_jumps", "send_blocked", "empty_reply"]
 shrink_lists: List[tuple] = []
 
 
@@ -57,7 +58,14 @@ def plan_for(tier: str, seed: int, i: int) -> dict:
         timeout = TIMEOUTS[j % len(TIMEOUTS)]
         latseed = seed * 1000 + j // len(TIMEOUTS)
         via = "send_udp" if (j // len(TIMEOUTS)) % 2 == 0 else "client"
-    return {"prop": ID, "retries": retries, "seq": seq, "timeout": timeout, "latseed": latseed, "via": via}
+    # the wall clock (time.time) is stepped forwards/backwards at some of its readings: NTP correction, VM resume.
+    # Timeouts are defined on the monotonic clock; no wall-clock behaviour may change what the sender does.
+    crng = rng_for(seed, ID, tier + ":clock", i)
+    clock = {"mode": "tied", "epoch": 1_700_000_000}
+    if crng.random() < 0.5:
+        clock = {"mode": "jumping", "epoch": 1_700_000_000,
+                 "jumps": [[k, crng.choice([30, 3600, 86400, -3600, -30])] for k in sorted(crng.sample(range(0, 8), crng.randrange(1, 4)))]}
+    return {"prop": ID, "retries": retries, "seq": seq, "timeout": timeout, "latseed": latseed, "via": via, "clock": clock}
 
 
 class ScriptedPeer:
@@ -67,6 +75,7 @@ class ScriptedPeer:
         self.w = w
         self.plan = plan
         self.attempts: List[dict] = []
+        self.by_port: Dict[int, dict] = {}
         self.inner = RefAgent({(1, 3, 6, 1, 2, 1, 1, 1, 0): ("str", b"descr")}, communities={1: {b"public"}})
 
     def _lat(self, k: int, j: int = 0, late: bool = False) -> int:
@@ -80,13 +89,29 @@ class ScriptedPeer:
         if self.plan["via"] == "client":
             out = self.inner.handle(data, src, self.w.loop.time())
             return out[0][1]
+        if keyed(self.plan["latseed"], "empty", k) % 4 == 0:
+            return b""          # a zero-length datagram is a reply like any other
         return b"reply-to-attempt-%d:" % k + data[:8]
 
-    def handle(self, data: bytes, src: tuple, now: float) -> List[Tuple[int, bytes]]:
+    def on_send(self, transport: Any, data: bytes) -> Optional[float]:
+        """Send gate: registers attempt k when the client hands the datagram to its socket."""
         k = len(self.attempts)
+        now = self.w.loop.time()
         outcome = self.plan["seq"][k] if k < len(self.plan["seq"]) else "N"
-        att = {"k": k, "t": now, "src": src, "data": data, "outcome": outcome, "replies": []}
+        att = {"k": k, "t": now, "src": transport._local, "data": data, "outcome": outcome, "replies": [], "arrived": None}
         self.attempts.append(att)
+        self.by_port[transport._local[1]] = att
+        if outcome == "B":
+            # the send queue stays full for longer than this attempt lasts: nothing reaches the wire in time
+            return now + self.plan["timeout"] + (1 + keyed(self.plan["latseed"], "blk", k) % 512) * TICK
+        return None
+
+    def handle(self, data: bytes, src: tuple, now: float) -> List[Tuple[int, bytes]]:
+        att = self.by_port.get(src[1])
+        if att is None:
+            return []
+        k, outcome = att["k"], att["outcome"]
+        att["arrived"] = now
         sock = self.w.net.bound.get(src)
         if outcome == "R":
             l = self._lat(k)
@@ -110,15 +135,16 @@ class ScriptedPeer:
             self.w.loop.call_later(self._lat(k) * TICK, sock._icmp_error, errs[keyed(self.plan["latseed"], "err", k) % len(errs)])
         if outcome == "F" and sock is not None:
             self.w.loop.call_later(self._lat(k) * TICK, sock._fatal_error, OSError(101, "Network is unreachable"))
-        return []
+        return []          # N, B (a stale datagram flushed after the attempt ended) and the error outcomes: no reply
 
 
 def execute(plan: dict) -> dict:
     from puresnmp.transport import Endpoint, send_udp
     from ipaddress import ip_address
-    w = World()
+    w = World(clock=plan.get("clock"))
     peer = ScriptedPeer(w, plan)
     w.net.add_agent(("10.0.0.2", 161), peer)
+    w.net.send_gate = peer.on_send
     retries, timeout = plan["retries"], plan["timeout"]
     request = b"\x30\x10request-payload-XYZ"
     res = exc = None
@@ -180,7 +206,7 @@ def execute(plan: dict) -> dict:
     # spacing while unanswered (only meaningful before the first error outcome)
     limit = len(atts) if not error_seen else next(k for k, a in enumerate(atts) if a["outcome"] in "IF") + 1
     for k in range(1, min(limit, len(atts))):
-        if atts[k - 1]["outcome"] in "NL":
+        if atts[k - 1]["outcome"] in "NLB":
             # c2a latency is constant (1 tick), so arrival spacing equals transmission spacing
             gap = atts[k]["t"] - atts[k - 1]["t"]
             if gap != timeout:
@@ -220,6 +246,9 @@ def execute(plan: dict) -> dict:
         "fatal_error": int("F" in seq[:len(atts)]),
         "reply_on_last_attempt": int(answered_at is not None and answered_at == retries - 1),
         "via_client_get": int(client is not None), "error_then_retry_or_raise": int(error_seen),
+        "wall_clock_jumps": int(plan.get("clock", {}).get("mode") == "jumping"),
+        "send_blocked": int("B" in seq[:len(atts)]),
+        "empty_reply": int(answered_at is not None and atts[answered_at]["replies"][0][1] == b""),
     }
     counters = dict(w.net.counters)
     counters["fault_no_reply"] = sum(1 for a in atts if a["outcome"] == "N")
@@ -227,6 +256,7 @@ def execute(plan: dict) -> dict:
     counters["fault_dup_reply"] = sum(1 for a in atts if a["outcome"] == "D")
     counters["fault_icmp"] = sum(1 for a in atts if a["outcome"] == "I")
     counters["fault_fatal"] = sum(1 for a in atts if a["outcome"] == "F")
+    counters["fault_send_queue_full"] = sum(1 for a in atts if a["outcome"] == "B")
     for kk, v in probes.items():
         counters["probe_" + kk] = v
     out = {
@@ -249,9 +279,12 @@ def simplify(plan: dict):
             p = dict(plan); p["seq"] = plan["seq"][:k] + plan["seq"][k + 1:]; p["retries"] = plan["retries"] - 1; yield p
     if plan["timeout"] != 1:
         p = dict(plan); p["timeout"] = 1; yield p
+    if plan.get("clock", {}).get("mode") == "jumping":
+        p = dict(plan); p["clock"] = {"mode": "tied", "epoch": 1_700_000_000}; yield p
 
 
 def describe(plan: dict) -> str:
-    names = {"R": "reply", "N": "no-reply", "L": "late-reply", "D": "two-replies", "I": "icmp", "F": "fatal"}
+    names = {"R": "reply", "N": "no-reply", "L": "late-reply", "D": "two-replies", "I": "icmp", "F": "fatal",
+             "B": "send-queue-full"}
     return "retries=%d timeout=%s via=%s attempts: %s" % (plan["retries"], plan["timeout"], plan["via"],
                                                             ", ".join(names[c] for c in plan["seq"]))
